@@ -214,11 +214,38 @@ def resultStr (r : Option Result) : String :=
   | some (.rejected .toolarge _) => "k10"     -- MessageTooLargeError unwraps to MessageSizeTooLarge (error.go)
   | some (.rejected _ _) => "other"
 
-def predict (sc : Scenario) (s : State) : String :=
+/-- WriterStats as the model accounts them: one write per finished attempt with the batch's message count and bytes,
+an error per failed attempt, a retry per attempt after the first, the largest batch sent -/
+def predictStats (s : State) (evs : List String) : String :=
+  let done := evs.filterMap (fun t => match words t with
+    | ["PW.AttemptDone", _, b, _, code] => (idOf "b" b).map (fun b => (b, code))
+    | _ => none)
+  let sizeOf (b : Nat) : Nat × Nat := match s.batches b with
+    | some B => (B.msgs.length, B.bytes)
+    | none => (0, 0)
+  let w := done.length
+  let m := (done.map (fun x => (sizeOf x.1).1)).sum
+  let by_ := (done.map (fun x => (sizeOf x.1).2)).sum
+  let e := (done.filter (fun x => x.2 != "ok")).length
+  let r := (evs.filter (fun t => match words t with | ["PW.Attempt", _, _, k] => k != "0" | _ => false)).length
+  -- BatchSize / BatchBytes summaries are observed once per batch taken from the queue
+  let got := evs.filterMap (fun t => match words t with
+    | ["Q.Get", _, b] => idOf "b" b
+    | _ => none)
+  let maxn := (got.map (fun b => (sizeOf b).1)).foldl max 0
+  let maxb := (got.map (fun b => (sizeOf b).2)).foldl max 0
+  s!"w={w},m={m},b={by_},e={e},r={r},maxn={maxn},maxb={maxb}"
+
+def predict (sc : Scenario) (obs : Obs) (evs : List String) (s : State) : String :=
   let rets := (sortBy (fun (a b : CDecl) => a.id < b.id) sc.calls).map (fun c =>
     match s.calls c.id with
     | some C => match C.result with
-      | some (.rejected .metadata i) => s!"c{c.id} {metaCode c i}"
+      | some (.rejected .metadata i) =>
+        -- the error of a failed metadata lookup is the environment's (over a real Transport: dial failures, deadlines);
+        -- the model only says the call ends in a rejection: any observed non-success code is the prediction
+        let seen := retOf obs c.id
+        if (sc.calls.find? (·.id == c.id)).any (fun d => d.msgs.any (fun m => m.topic.startsWith "nope")) then s!"c{c.id} {metaCode c i}"
+        else if isAccepted seen then s!"c{c.id} rejected-by-metadata" else s!"c{c.id} {seen}"
       | r => s!"c{c.id} {resultStr r}"
     | none => s!"c{c.id} closed")
   let tps := sortBy (fun (a b : TP) => a.1 < b.1 || (a.1 == b.1 && a.2 < b.2)) (s.tps.filter (fun tp => !(s.log tp).isEmpty))
@@ -229,7 +256,7 @@ def predict (sc : Scenario) (s : State) : String :=
     | none => [])
   let cbs := sortBy (fun (a b : String × String) => keyNum a.1 < keyNum b.1 || (keyNum a.1 == keyNum b.1 && a.2 < b.2)) cbs
   let orDash (l : List String) := if l.isEmpty then "-" else ";".intercalate l
-  s!"ret {orDash rets} | log {orDash logs} | cb {orDash (cbs.map (fun x => x.1 ++ " " ++ x.2))} | unsent 0 | multi 0 | stuck 0"
+  s!"ret {orDash rets} | log {orDash logs} | cb {orDash (cbs.map (fun x => x.1 ++ " " ++ x.2))} | unsent 0 | multi 0 | stuck 0 | stats {predictStats s evs} | early 0"
 
 /-- the fake broker's journal, from the environment events of the trace -/
 def journalOf (evs : List String) : List JReq :=
@@ -241,7 +268,7 @@ def journalOf (evs : List String) : List JReq :=
 
 def parseObs (s : String) : Option Obs :=
   match s.splitOn " | " with
-  | [rets, logs, cbs, unsent, multi, stuck] => do
+  | [rets, logs, cbs, unsent, multi, stuck, stats, early] => do
     let body (pre x : String) : String := ((x.drop pre.length).toString.trimAscii).toString
     let rt := body "ret" rets
     let rets ← (if rt == "-" then some [] else (rt.splitOn ";").mapM (fun r =>
@@ -262,7 +289,8 @@ def parseObs (s : String) : Option Obs :=
       | [k, code] => some (k, code)
       | _ => none))
     let num (pre x : String) : Option Nat := (body pre x).toNat?
-    some { rets := rets, logs := logs, cbs := cbs, unsent := ← num "unsent" unsent, multi := ← num "multi" multi, stuck := ← num "stuck" stuck }
+    some { rets := rets, logs := logs, cbs := cbs, unsent := ← num "unsent" unsent, multi := ← num "multi" multi, stuck := ← num "stuck" stuck,
+           stats := body "stats" stats, early := ← num "early" early }
   | _ => none
 
 def answer (model : String) (holds : Bool) : String :=
@@ -279,7 +307,7 @@ def handle (line : String) : String :=
         let sc : Scenario := { cfg := mc, calls := cs.map (·.1), ptrs := cs.map (fun x => (x.2, x.1.id)) }
         let evs := (evS.splitOn ";").map (fun e => (e.trimAscii).toString) |>.filter (· ≠ "")
         let model := match replay sc (modelCfg mc) State.init 0 evs with
-          | .ok s => predict sc s
+          | .ok s => predict sc obs evs s
           | .error e => e
         let j := journalOf evs
         let tev : List TEv := evs.map words
@@ -289,7 +317,10 @@ def handle (line : String) : String :=
             | some d => (d.msgs[i]?.map (·.size)).getD 0
             | none => 0
           | none => 0
-        let c08 := holdsC08 mc sc.calls j obs && closedWhenFull mc.bs mc.bb sizeOf tev && detachedGetsPut tev && timerDetachOk tev
+        let accepted : List (String × Nat) := sc.ptrs.filterMap (fun (ptr, cid) =>
+          if isAccepted (retOf obs cid) then (sc.calls.find? (·.id == cid)).map (fun d => (ptr, d.msgs.length)) else none)
+        let c08 := holdsC08 mc sc.calls j obs && closedWhenFull mc.bs mc.bb sizeOf tev && detachedGetsPut tev && timerDetachOk tev &&
+          attemptedAll tev accepted
         let c07 := holdsC07 sc.calls j obs && putInsideSection tev
         let c01 := holdsC01 mc sc.calls j obs && batchOnce tev && timerDetachOk tev
         let holds :=
